@@ -179,7 +179,7 @@ class Opaque:
         self.what = what
 
     def __repr__(self):
-        return 'Opaque(%s)' % self.what
+        return 'Opaque(%s)' % (self.what,)
 
 
 class Env:
